@@ -70,7 +70,7 @@ func c03(r *rep.Run) {
 		coreMax, richMax = 8, 7
 		r.SetBudget(1500e9)
 	}
-	r.Rule = "every CORE/RICH program up to the node bound x 16 optimisation subsets x {events off, ReportEvent} x every binding of its variables to a value or a sentinel fetch failure; oracle: the ordered log of VariableFetcher.Get calls and registered-operator calls (names, argument snapshots, results, failures) recorded by the harness equals the trace of left-to-right short-circuit evaluation (R1) of the tree parsed from Dump, and so does the outcome; under FastEvaluation a two-leaf operator may fetch both leaves first (every per-node choice is accepted, nothing else). With optimisations off the Dump tree must equal the source tree. Plus nested evaluations: while a registered operator runs, the same compiled program (operand widths 3..40: all operand-stack classes) is evaluated to completion under another binding; the outer Eval/TryEval must still match R1 for its own binding. non-trivial = executions in which R1 skips at least one effect (short-circuit / untaken branch) or fails"
+	r.Rule = "every CORE/RICH program up to the node bound x 16 optimisation subsets x {events off, ReportEvent} x every binding of its variables to a value or a sentinel fetch failure; oracle: the ordered log of VariableFetcher.Get calls and registered-operator calls (names, argument snapshots, results, failures) recorded by the harness equals the trace of left-to-right short-circuit evaluation (R1) of the tree parsed from Dump, and so does the outcome; under FastEvaluation a two-leaf operator may fetch both leaves first (every per-node choice is accepted, nothing else). With optimisations off the Dump tree must equal the source tree. Plus nested evaluations: while a registered operator runs, the same compiled program (operand widths 3..40: all operand-stack classes) is evaluated to completion under another binding; the outer Eval/TryEval must still match R1 for its own binding; and `if` conditions bound to every kind of non-boolean value (8 shapes): evaluation fails at the condition and neither branch runs. non-trivial = executions in which R1 skips at least one effect (short-circuit / untaken branch) or fails"
 	r.Assume = []string{"the independent Dump reader (mc/sx) is correct on the plain literals these alphabets use",
 		"small-scope hypothesis on tree size"}
 	r.Cov["bounds"] = map[string]int{"core_max_nodes": coreMax, "rich_max_nodes": richMax}
@@ -82,6 +82,7 @@ func c03(r *rep.Run) {
 	}
 	progs = withAliases(progs, aliasMax)
 	progs = withMerged(progs, 5)
+	progs = append(progs, loneLeafPrograms()...)
 	r.Cov["programs_incl_alias_spellings"] = len(progs)
 	hs := harnesses(r.Workers)
 	opts := optMatrix(0, 1)
@@ -146,9 +147,9 @@ func c03(r *rep.Run) {
 				h.Reset()
 				gotT := h.TryEval(c.e, c.f)
 				ex++
-				if okT, wantTraceT, _ := c03Match(trees[k], p.Vars, vals, c.o.FE, got, h.Trace); !okT && drive.SameOutcome(gotT, got) {
-					r.Violate("tryeval-trace", p.Src+c.o.String(), "TryEval (every variable available) performs different fetches/operator calls than short-circuit evaluation of the Dump tree", caseDesc(p.Src, c.o, p.Vars, vals, nil,
-						map[string]interface{}{"dump_tree": trees[k].Src(), "got_trace": traceStr(h.Trace), "want_trace": traceStr(wantTraceT)}))
+				if okT, wantTraceT, wantT := c03Match(trees[k], p.Vars, vals, c.o.FE, gotT, h.Trace); !okT {
+					r.Violate("tryeval-trace", p.Src+c.o.String(), sprintf("TryEval (every variable available) gives %s / performs different fetches and operator calls than short-circuit evaluation of the Dump tree (%s)", gotT, wantT), caseDesc(p.Src, c.o, p.Vars, vals, nil,
+						map[string]interface{}{"dump_tree": trees[k].Src(), "got": gotT.String(), "want": wantT.String(), "got_trace": traceStr(h.Trace), "want_trace": traceStr(wantTraceT)}))
 				}
 			}
 			return true
@@ -160,6 +161,7 @@ func c03(r *rep.Run) {
 	})
 	r.Cov["programs_completed"] = done
 	c03Nested(r)
+	c03IllTypedIf(r)
 	r.Finish()
 }
 
@@ -267,5 +269,124 @@ func c03Nested(r *rep.Run) {
 		}
 	}
 	r.Cov["nested_evaluation_runs"] = runs
+	r.Add(0, runs, runs, runs, nontrivial)
+}
+
+// c03IllTypedIf: an `if` whose condition evaluates to something that is not a
+// boolean fails AT the condition: neither branch is evaluated (no fetch, no
+// operator call of either branch happens). Condition: a variable bound to
+// every kind of non-boolean value, directly and as the result of a registered
+// operator; the `if` at the root, under an arithmetic operator and inside a
+// branch of another `if`. (and/or are kept out of these shapes: what they do
+// with non-boolean operands is C18's open finding.)
+func c03IllTypedIf(r *rep.Run) {
+	h := drive.NewHarness()
+	h.Register("idv", func(a []interface{}) (interface{}, error) { // identity: hands any value through
+		if len(a) != 1 {
+			return nil, ref.ErrBuiltin
+		}
+		return a[0], nil
+	})
+	customs := map[string]ref.CustomFn{}
+	for k, v := range ref.Customs {
+		customs[k] = v
+	}
+	customs["idv"] = func(a []interface{}) (interface{}, error) {
+		if len(a) != 1 {
+			return nil, ref.ErrBuiltin
+		}
+		return a[0], nil
+	}
+	c := func() *term.Term { return term.Var("b", B) } // the condition (typed B for the enumerator, bound to anything)
+	b := func() *term.Term { return term.Var("b", B) }
+	n := func() *term.Term { return term.Var("n", I) }
+	thenB, elseB := func() *term.Term { return term.Op("p", B, b()) }, func() *term.Term { return term.Op("q", B, b(), b()) }
+	thenI, elseI := func() *term.Term { return term.Op("g", I, n()) }, func() *term.Term { return term.Op("d", I, n(), n()) }
+	progs := []*Prog{
+		MkProg(term.If(c(), thenB(), elseB())),
+		MkProg(term.If(c(), thenI(), elseI())),
+		MkProg(term.If(term.Op("idv", B, c()), thenI(), elseI())),
+		MkProg(term.Op("+", I, term.Const(1), term.If(c(), thenI(), elseI()), term.Op("g", I, n()))),
+		MkProg(term.If(b(), term.If(c(), thenI(), term.Const(2)), elseI())),
+		MkProg(term.If(b(), term.Const(1), term.If(c(), term.Const(2), elseI()))),
+		MkProg(term.Op("not", B, term.If(c(), thenB(), elseB()))),
+		MkProg(term.Op("=", B, term.If(c(), thenI(), elseI()), n())),
+	}
+	condVals := []interface{}{true, false, int64(1), int64(0), "true", "", nil, []int64{1}, []string{}}
+	opts := optMatrix(0, 1)
+	var runs, nontrivial int64
+	for _, p := range progs {
+		cs := compileAll(r, h, p, opts)
+		// which variable is the condition: the first variable of the innermost
+		// ill-typed if; MkProg numbers variables in source order, so find it by walking
+		condIdx := -1
+		p.T.Walk(func(t *term.Term) {
+			if t.K == term.KIf && condIdx < 0 {
+				cv := t.Kids[0]
+				if cv.K == term.KOp {
+					cv = cv.Kids[0]
+				}
+				if cv.K == term.KVar && t.Kids[1].K != term.KIf && t.Kids[2].K != term.KIf {
+					for i, v := range p.Vars {
+						if v.Name == cv.Name {
+							condIdx = i
+						}
+					}
+				}
+			}
+		})
+		if condIdx < 0 {
+			continue
+		}
+		doms := Doms(p.Vars, false)
+		doms[condIdx] = condVals
+		vals := make([]interface{}, len(p.Vars))
+		for k := range cs {
+			cc := &cs[k]
+			tree, _, err := dumpTree(cc.e)
+			if err != nil {
+				continue
+			}
+			drive.ForBindings(doms, vals, func() bool {
+				for mode := 0; mode < 2; mode++ {
+					if mode == 1 && cc.o.Events != 0 {
+						continue
+					}
+					copy(cc.f.Vals, vals)
+					h.Reset()
+					var got drive.Out
+					if mode == 0 {
+						got = h.Eval(cc.e, cc.f)
+					} else {
+						got = h.TryEval(cc.e, cc.f)
+					}
+					runs++
+					if _, isB := vals[condIdx].(bool); !isB {
+						nontrivial++
+					}
+					env := &ref.Env{Vals: map[string]interface{}{}, Custom: customs}
+					for i, v := range p.Vars {
+						env.Vals[v.Name] = vals[i]
+					}
+					env.Paired = func(*term.Term) bool { return cc.o.FE }
+					wv, werr := env.Eval(tree)
+					want := refOut(wv, werr)
+					okc := drive.SameOutcome(got, want) && ref.TraceEqual(h.Trace, env.Trace)
+					if !okc && cc.o.FE {
+						env2 := &ref.Env{Vals: env.Vals, Custom: customs}
+						wv, werr = env2.Eval(tree)
+						okc = drive.SameOutcome(got, refOut(wv, werr)) && ref.TraceEqual(h.Trace, env2.Trace)
+					}
+					if !okc {
+						r.Violate("ill-typed-condition", p.Src+cc.o.String(), sprintf("%s with a non-boolean `if` condition gives %s / other effects than failing at the condition (%s)", []string{"Eval", "TryEval"}[mode], got, want),
+							caseDesc(p.Src, cc.o, p.Vars, vals, nil, map[string]interface{}{"dump_tree": tree.Src(), "got_trace": traceStr(h.Trace), "want_trace": traceStr(env.Trace), "condition_value": fmt.Sprintf("%T(%v)", vals[condIdx], vals[condIdx])}))
+						return false
+					}
+				}
+				return true
+			})
+		}
+	}
+	r.Cov["ill_typed_condition_runs"] = runs
 	r.Add(0, runs, runs, runs, nontrivial)
 }
